@@ -33,7 +33,7 @@ def build(doc, flavour, rng):
             dat.simulator = "AUTOUGH2.2EW"
         elif k == "ROCKS":
             for i, nad in enumerate(s["nads"]):
-                rt = t2grids.rocktype(ROCKS[i], nad, num(rng) * 1000, 0.125, [num(rng), num(rng), num(rng)], 2.5, 1000.0)
+                rt = t2grids.rocktype(ROCKS[i], nad, rng.choice([2600.0, 2500.0, 1.0e3]), 0.125, [num(rng), num(rng), num(rng)], 2.5, 1000.0)
                 if nad >= 1:
                     rt.compressibility, rt.expansivity, rt.dry_conductivity, rt.tortuosity = num(rng), num(rng), 1.5, 0.5
                     if rng.random() < 0.5:
@@ -99,7 +99,7 @@ def build(doc, flavour, rng):
                                           {"ntype": "NY", "no": 9, "del": 0.0, "deli": [float(i + 1) for i in range(9)]},
                                           {"ntype": "NZ", "no": 2, "del": 12.5}])]
             else:
-                dat.meshmaker = [("minc", {"type": "ONE-D", "dual": "DFLT ", "num_continua": 3, "where": "OUT ",
+                dat.meshmaker = [("minc", {"type": "ONE-D", "dual": "DFLT", "num_continua": 3, "where": "OUT ",
                                            "spacing": [2.5, 12.5], "vol": [0.125, 0.5] + ([0.5] * rng.choice([0, 7]))})]
     # grid content
     elem = next((s for s in doc["secs"] if s["kind"] == "ELEME"), None)
@@ -258,14 +258,16 @@ def _mm(mm):
     return out
 
 
-def first_difference(a, b, path=""):
+def first_difference(a, b, path="", rtol=0.0):
+    if rtol and isinstance(a, (int, float)) and isinstance(b, (int, float)) and not isinstance(a, bool):
+        return None if abs(a - b) <= rtol * max(abs(a), abs(b)) else "%s: %r != %r" % (path, a, b)
     if type(a) != type(b) and not (isinstance(a, (int, float)) and isinstance(b, (int, float))):
         return "%s: %r != %r" % (path, a, b)
     if isinstance(a, dict):
         for k in sorted(set(a) | set(b), key=str):
             if k not in a or k not in b:
                 return "%s.%s: %r != %r" % (path, k, a.get(k, "<absent>"), b.get(k, "<absent>"))
-            d = first_difference(a[k], b[k], path + "." + str(k))
+            d = first_difference(a[k], b[k], path + "." + str(k), rtol)
             if d:
                 return d
         return None
@@ -273,7 +275,7 @@ def first_difference(a, b, path=""):
         if len(a) != len(b):
             return "%s: length %d != %d (%r vs %r)" % (path, len(a), len(b), a, b)
         for i, (x, y) in enumerate(zip(a, b)):
-            d = first_difference(x, y, "%s[%d]" % (path, i))
+            d = first_difference(x, y, "%s[%d]" % (path, i), rtol)
             if d:
                 return d
         return None
